@@ -19,7 +19,7 @@ def build(job):
 
 
 FINDING_CAP = 12
-PATH_TIMEOUT_S = int(os.environ.get('VERIF_PATH_TIMEOUT_S', '240'))
+PATH_TIMEOUT_S = int(os.environ.get('VERIF_PATH_TIMEOUT_S', '240' if os.environ.get('VERIF_TIER', 'quick') == 'quick' else '900'))
 
 
 class PathTimeout(BaseException):
@@ -78,8 +78,12 @@ def _explore_task(job, jidx, pre, shared, stats, sample_every, known_builder, de
             m = None
             try: m = c.current_model()
             except BaseException: pass
-            stats['errors'].append('PATH-TIMEOUT: one path did not finish within %d s - the code under execution may not terminate; a model of the path so far: %s'
-                                   % (PATH_TIMEOUT_S, {k: v for k, v in (m or {}).items() if '!' not in k}))
+            msg = ('PATH-TIMEOUT: one path did not finish within %d s - the code under execution may not terminate; a model of the path so far: %s'
+                   % (PATH_TIMEOUT_S, {k: v for k, v in (m or {}).items() if '!' not in k}))
+            if job.get('mandatory', True):
+                stats['errors'].append(msg)
+            else:
+                stats['unsupported_msgs'].append(msg[:200]); stats['abandoned'] += 1      # an optional shape: simply not finished
             jdead[jidx] = 1
             break
         except PathAbort:
